@@ -37,6 +37,8 @@ type Clause struct {
 	File string
 	Loop int
 	Hint bool
+	TmplVar   string
+	TmplTypes []string
 }
 
 type FuncContract struct {
@@ -214,6 +216,19 @@ func parseContractFile(path string) (*PkgContracts, error) {
 				return nil, fmt.Errorf("%s:%d: clause outside func", path, ln)
 			}
 			cl := &Clause{Kind: m, Text: rest, Line: ln, File: path}
+			// clause template:  ensures[T: int8|int16|...] P(T)  -> one clause per listed type
+			if strings.HasPrefix(rest, "[") {
+				j := strings.Index(rest, "]")
+				c := strings.Index(rest, ":")
+				if j < 0 || c < 0 || c > j {
+					return nil, fmt.Errorf("%s:%d: bad clause template", path, ln)
+				}
+				cl.TmplVar = strings.TrimSpace(rest[1:c])
+				for _, t := range strings.Split(rest[c+1:j], "|") {
+					cl.TmplTypes = append(cl.TmplTypes, strings.TrimSpace(t))
+				}
+				cl.Text = strings.TrimSpace(rest[j+1:])
+			}
 			switch m {
 			case "requires":
 				cur.Requires = append(cur.Requires, cl)
@@ -277,6 +292,11 @@ func parseContractFile(path string) (*PkgContracts, error) {
 	}
 	if inSpec {
 		return nil, fmt.Errorf("%s: unterminated spec func", path)
+	}
+	// expand clause templates
+	for _, fc := range pc.Funcs {
+		fc.Requires = expandTemplates(fc.Requires)
+		fc.Ensures = expandTemplates(fc.Ensures)
 	}
 	// sugar
 	for _, fc := range pc.Funcs {
